@@ -165,12 +165,22 @@ def run(chk, failed):
         reported.add(i)
     if not oracle_bad:
         found = False
-        for i in mism[:3]:
+        hard = [i for i in mism if not R.reading_ambiguous(lines[i])]
+        for i in (hard + [j for j in mism if j not in hard])[:3]:
             if search(chk, lines[i], impl[i], model[i], 400 if not thorough else 4000):
                 found = True
                 break
-        if mism and not found:
-            i = mism[0]
+        if mism and not found and not hard:
+            # Every history on which implementation and model differ contains an arrival whose outcome the property
+            # text leaves open (a commit later in the log with an earlier timestamp: signed vs absolute reading of
+            # "closer in time"; or two payloads for one log position), and the oracle — which accepts every outcome the
+            # text allows — holds on those replies and on the searched neighbourhood.  Allowed, different output: no alarm.
+            chk.count("tolerated:differs-from-model-only-where-the-text-leaves-the-outcome-open", len(mism))
+            chk.notes.append("implementation and model differ on %d histories, all of them reading-ambiguous (see design_notes/C02.md, "
+                             "Interpretation); the property's oracle holds on the implementation's replies; first: %s" % (len(mism), lines[mism[0]][:400]))
+            C.log("C02: %d model/implementation differences confined to reading-ambiguous histories; oracle holds; tolerated" % len(mism))
+        elif mism and not found:
+            i = hard[0]
             small = SC.shrink(chk, lines[i], lambda a, b: a != b)
             chk.violation("corr_%d" % i, {"kind": "history", "probe": PROBE, "case": lines[i], "shrunk": small,
                                           "impl_output": impl[i], "model_output": model[i],
@@ -194,7 +204,8 @@ def run(chk, failed):
             chk.violation("obligation", {"kind": "theorem", "broken": [n for n, _ in failed],
                                          "detail": [d for _, d in failed]}, found_input=False)
     chk.assumptions += [
-        "ring theorems are about Ring.ring_step from Ring.new_ring; Storage.step creates a partition ring only by new_ring (cf_intervals) and updates it only by ring_step (by inspection of Storage.v; tied by the general histories)",
+        "ring theorems are about Ring.ring_step from Ring.new_ring; the lift to every partition ring of every reachable storage state is C02_storage_ring_provenance / _windows_wf / _reply_windows and the state-free C02_storage_ring_of_history (StorageWindows.v)",
+        "INTERPRETATION: 'closer in time than the minimum distance' is the code's signed difference new - previous < 1000*distance; a commit later in the log with an earlier timestamp than its stored predecessor replaces it at every distance >= 0, 0 included (C02_closer_is_signed_difference, witness in corpus); the oracle accepts the merged and the unmerged window there, and differences from the model confined to such histories are tolerated",
         "top-N / arrival independence: min-distance 0, timestamps non-decreasing along the log, int64 timestamp differences do not wrap (true of all non-negative timestamps, i.e. of everything the too-old test lets through with a clock later than expire-group), one commit per log position; each is shown necessary by a _refuted witness",
         "when two different commits claim one log position the first to arrive is kept (theorem C02_sorted_set_first_arrival); the property does not state this, so the Python oracle does not demand it",
         "container/ring is modelled as the list of its slots walked backwards from the partition pointer",
